@@ -184,7 +184,7 @@ pub fn run(ctx: &Ctx) -> i32 {
         });
     }
     let n = if ctx.thorough { 400_000 } else { 30_000 };
-    let names = ["ab", "abc", "meta", "astral", "classes", "graph", "mixed", "case", "clusters"];
+    let names = ["ab", "abc", "meta", "astral", "classes", "graph", "mixed", "case", "clusters", "tokens"];
     let alphabets: Vec<(String, Vec<String>)> = names.iter().map(|a| (a.to_string(), gen::alphabet(a))).collect();
     par_for(&ctx.run, n, |i, st| {
         let mut rng = Rng::new(seed, 0x130_0000 + i as u64);
